@@ -492,4 +492,7 @@ def run(chk):
                         chk.fail(rule, repo.where(m, fn), qual, f'mutable default `{a.arg}` of {qual}',
                                  f'parameter `{a.arg}={ast.unparse(d)}` of {qual} is a mutable default that is '
                                  + ('mutated in the body' if muts else 'stored on the instance') + ': calls / instances share one object across boards')
+    # ---- M10: a class with its own copy protocol gives copy.deepcopy an independent object --------------------------------------
+    from . import copyproto
+    copyproto.run(chk, rule, {rel_ for rel_, pids_ in RELEVANT.items() if pid in pids_})
     chk.ok(rule, 'package', f'{n_fn} functions of the modules {pid} depends on: no unsound memoisation, no shared class-level mutable state, no mutated mutable default')
